@@ -15,7 +15,8 @@ pub const OBF_CLASSES: &[&str] = &[
     "a b", "a\tb", " a", "a ", "e\u{301}", "\u{e9}", "A.a", "a.A",
     // a literal '/' in a class name (descriptors spell '.' as '/'), and obfuscated names that stay
     // in platform-looking packages
-    "a/b", "a/a", "p/q.r", "java.util.a", "javax.b", "android.support.v4.app.e", "kotlin.c",
+    "a/b", "a/a", "p/q.r", "java.util.a", "javax.b", "android.support.v4.app.e", "kotlin.c", "kotlin.jvm.internal.k", "kotlinx.coroutines.a0", "a)b", "x<y", "a<b>",
+    "e\u{200b}", "\u{200b}e",
 ];
 pub const ORIG_CLASSES: &[&str] = &[
     "com.example.Foo",
@@ -258,6 +259,11 @@ const NOISE: &[&str] = &[
     "    1:1:java.util.List<java.lang.String> x(java.util.Map<a,b>):1 -> y",
     "# {\"id\":\"sourceFile\",\"fileName\":\"unterminated",
     "# {\"id\":\"com.android.tools.r8.mapping\",\"version\":\"2.2\"}",
+    // a leading number that is not a `start:end:` prefix
+    "    3d bogusX() -> a",
+    "    12 bogusY() -> b",
+    "    7 int f -> m",
+    "    5:void z() -> a",
 ];
 
 fn source_file_line(rng: &mut Rng, cfg: &Cfg) -> String {
